@@ -423,6 +423,10 @@ def run(ctx):
     # >>> a_dom (wave 4): iterators at every iteration point, value readers of every yielded value
     C17_iter.run_iter(ctx, main_parsed, extra)
     # <<<
+    # >>> s_dom (wave 6): size / boundary ladders (one dimension at a time, expected counts by construction)
+    from props import C17_ladder
+    C17_ladder.run_ladder(ctx)
+    # <<<
 
 
 def search(ctx):
